@@ -533,6 +533,42 @@ def reopen (p : Params) (g : Block) (d : Durable) : Except Err State :=
     | .error e => .error e
     | .ok s => withPeers s
 
+/-- the durable state left when the process stops inside `recoverStore`, at point `r` of the first replayed block
+(0 = batches filled, nothing committed; 1 = event store committed; 2 = event and state store committed);
+`none` when that point is not reached (nothing to replay, or the replay fails before it) -/
+def recoverCrash (p : Params) (d : Durable) (m : Mem) (r : Nat) : Option Durable :=
+  match d.states.current with
+  | none => none
+  | some (_, stateHeight) =>
+    if m.currHeight ≤ stateHeight then none
+    else match d.blocks.hashAt (stateHeight + 1) with
+      | none => none
+      | some h =>
+        match d.blocks.blockAt h with
+        | none => none
+        | some b =>
+          let res := p.exec d.states.kv b
+          let m' := fillMem m b res
+          some { d with events := if r ≥ 1 then d.events.commit (eventBatch p b res) else d.events,
+                        states := if r ≥ 2 then d.states.commit (stateBatch p m.stateTree m.blockTree b res) else d.states,
+                        fileLen := max d.fileLen m'.filePos }
+
+/-- a restart on `d` that stops at point `r` inside `recoverStore`; `none` when the restart does not get there -/
+def reopenCrash (p : Params) (g : Block) (d : Durable) (r : Nat) : Option Durable :=
+  match openState d with
+  | .error _ => none
+  | .ok (bt, st, pos) =>
+    if !d.blocks.version then none
+    else if (d.blocks.blockAt g.header.hash).isNone then none
+    else match d.blocks.current with
+      | none => none
+      | some (ch, chh) =>
+        match loadIndex d.blocks chh with
+        | .error _ => none
+        | .ok (idx, cnt, stored) =>
+          recoverCrash p d { emptyMem with currHeight := chh, currHash := ch, headerIndex := idx, headerCount := cnt,
+                                           storedIndexCount := stored, blockTree := bt, stateTree := st, filePos := pos } r
+
 /-- a fresh directory -/
 def initLedger (p : Params) (g : Block) : Except Err State := reopen p g Durable.empty
 
